@@ -78,6 +78,13 @@ pub fn spell(t: &Tuple, sp: &Sp) -> String {
         if sp.empty_quals {
             qs.insert(0, "zz9=".into());
             qs.push("Aa0=".into());
+            // ... and one that carries, in the other letter case, the key of the first written qualifier, before it: an empty value
+            // is no value, the key is still free
+            if let Some((k0, _)) = t.quals.first() {
+                let first_written = if sp.rev_quals { t.quals.last().unwrap().0 } else { k0 };
+                let other = if first_written.chars().any(|c| c.is_ascii_uppercase()) { first_written.to_ascii_lowercase() } else { first_written.to_ascii_uppercase() };
+                qs.insert(0, format!("{other}="));
+            }
         }
         s.push('?');
         s.push_str(&qs.join("&"));
@@ -119,9 +126,11 @@ pub fn expected(t: &Tuple, typed: bool) -> RefPurl {
 
 pub fn tuples(thorough: bool) -> Vec<Tuple> {
     let types = ["t", "T.x+Y-1", "npm", "maven", "PyPI", "nuget"];
-    let nss: Vec<Vec<&'static str>> = vec![vec![], vec!["a"], vec!["A b", "é"], vec!["@s?c#p", "%41", "x:y"], vec![".", "..", "a+b"]];
-    let names = ["n", "N_a.-b", "a@b?c#d", "é ǅ%", "%2F&=+", "100%"];
-    let versions = ["", "1.0", "1@2", "v+1 é", "%40"];
+    // LOOK: characters whose LOW BYTE is a separator or an escape-relevant byte ('/' '#' '?' '@' '%' '&' '=' ':' ',' '+' '.' '-'):
+    // code that truncates a char to a byte takes them for those
+    let nss: Vec<Vec<&'static str>> = vec![vec![], vec!["a"], vec!["A b", "é"], vec!["@s?c#p", "%41", "x:y"], vec![".", "..", "a+b"], vec!["Яndex", "日本", "ЯģĿŀĥĦĽĺĬīĮĭ"]];
+    let names = ["n", "N_a.-b", "a@b?c#d", "é ǅ%", "%2F&=+", "100%", "ЯģĿŀĥĦĽĺĬīĮĭ"];
+    let versions = ["", "1.0", "1@2", "v+1 é", "%40", "ŀЯ1"];
     let quals: Vec<Vec<(&'static str, &'static str)>> = vec![
         vec![],
         vec![("k", "v")],
@@ -133,8 +142,9 @@ pub fn tuples(thorough: bool) -> Vec<Tuple> {
         vec![("checksum", "sha3-256:11,sha3:00"), ("b", "2")],
         vec![("CheckSum", "sha3:00,Sha3-256:11"), ("a", "1")],
         vec![("a_b", "1"), ("ab", "2"), ("a.b", "3"), ("a-b", "4"), ("a1", "5"), ("A2", "6"), ("a", "7")],
+        vec![("q", "ĦĽЯģĿ"), ("r", "日本")],
     ];
-    let subs: Vec<Vec<&'static str>> = vec![vec![], vec!["s"], vec!["a b", "é#?", "c.d"], vec!["...", ".a", "%2e"]];
+    let subs: Vec<Vec<&'static str>> = vec![vec![], vec!["s"], vec!["a b", "é#?", "c.d"], vec!["...", ".a", "%2e"], vec!["Яģ", "Įĭ"]];
     let mut out = vec![];
     for (i, ty) in types.iter().enumerate() {
         for (j, ns) in nss.iter().enumerate() {
@@ -322,6 +332,14 @@ pub fn suite_faults(ctx: &Ctx, thorough: bool) {
                 }
                 cases.push((if good.contains('#') { format!("{}/x{}y", good, sl) } else { format!("{}#x{}y", good, sl) }, ErrKind::InvalidEscape, "escaped '/' in subpath segment"));
             }
+            // ... next to characters of several bytes (byte length and character count differ)
+            for (pre, sl) in [("\u{65e5}", "%2F"), ("\u{20ac}\u{e9}", "%2f"), ("\u{10000}", "%2F")] {
+                if !t.ns.is_empty() {
+                    let name_end = after_type + ty_len + 1;
+                    cases.push((format!("{}{}{}b{}", &good[..name_end], pre, sl, &good[name_end..]), ErrKind::InvalidEscape, "escaped '/' in namespace segment"));
+                }
+                cases.push((if good.contains('#') { format!("{}/{}{}b", good, pre, sl) } else { format!("{}#{}{}b", good, pre, sl) }, ErrKind::InvalidEscape, "escaped '/' in subpath segment"));
+            }
             for dots in ["%2e", "%2E%2e", ".%2E"] {
                 cases.push((if good.contains('#') { format!("{}/{}", good, dots) } else { format!("{}#{}", good, dots) }, ErrKind::InvalidEscape, "escaped dot segment in subpath"));
             }
@@ -377,7 +395,15 @@ pub fn suite_faults(ctx: &Ctx, thorough: bool) {
 /// C07: all spellings of namespace / subpath from the listed pieces
 pub fn suite_segments(ctx: &Ctx, thorough: bool) {
     let pieces = ["seg", "", ".", "..", "%2e", "%2E", ".%2e", "%2F", "%2f", "%5C", "a%20b", "é"];
-    let n = if thorough { 6 } else { 4 };
+    segments_over(ctx, &pieces, if thorough { 6 } else { 4 });
+    // multi-byte pieces: a hidden '/' next to characters of two, three and four bytes (byte length != character count), and characters
+    // whose low byte is '/' or '.' (Я U+042F, Į U+012E), raw and escaped
+    let pieces2 = ["seg", "", "..", "日%2Fb", "€%2f", "é%2F", "\u{10000}%2Fx", "%D0%AFx", "Я", "%C4%AE", "Į%2e", "日本"];
+    segments_over(ctx, &pieces2, if thorough { 4 } else { 3 });
+    ctx.sample(json!({"string": "pkg:t/seg//%2e/n", "component": "namespace"}));
+}
+
+fn segments_over(ctx: &Ctx, pieces: &[&str], n: usize) {
     let total = (0..=n).map(|k| pieces.len().pow(k as u32)).sum::<usize>();
     par_for(total, &|mut idx| {
         // decode idx into a piece list of length k
